@@ -14,6 +14,8 @@ const EQUIV_TAGS: &[&str] = &["OUTCOME", "EARLY-STOP", "ERRSPAN", "OVERREAD", "P
 
 const C10_CHARS: &[char] = &[
     '\u{1c5}', '\\', '.', '+', '*', '?', '(', ')', '|', '[', ']', '{', '}', '^', '$', '#', '&', '-', '~', ' ', 'k', 'K', 's', 'S', 'é', 'É', 'ß', 'ſ', '\u{212A}', 'σ', 'ς', 'Σ', '€', '\u{130}', '\u{131}', '_', '`', '@',
+    // the ends of the UTF-8 length ranges and characters outside the BMP, cased and uncased
+    '\u{7ff}', '\u{800}', '\u{ffff}', '\u{10000}', '😊', '\u{10400}', '\u{10428}', '\u{1e900}', '\u{10ffff}',
 ];
 const C10_BYTES: &[u8] = &[b'a', b'K', 0x00, 0x7f, 0x80, 0xe9, 0xff, b'.', b'\\', b'[', b'_', b'`', b'@', b'z', b'{'];
 
@@ -109,6 +111,31 @@ pub fn c10(a: &Args) -> Report {
             let mut s = mk(Kind::Token, &w, false);
             s.utf8 = true;
             specs.push(s);
+        }
+    }
+    // single-character literals over the whole alphabet: EVERY character that simple case folding
+    // relates to another one (about 2 800), plus a stride through all scalar values (thorough: every
+    // 16th, quick: every 2048th) - as #[token], with and without ignore(case), and next to an ASCII letter
+    {
+        use regex_syntax::hir::{ClassUnicode, ClassUnicodeRange};
+        let stride = if a.tier == Tier::Thorough { 16 } else { 2048 };
+        for (n, c) in (0..=0x10ffffu32).filter_map(char::from_u32).enumerate() {
+            let mut cl = ClassUnicode::new([ClassUnicodeRange::new(c, c)]);
+            cl.case_fold_simple();
+            let cased = cl.iter().map(|r| r.end() as u32 - r.start() as u32 + 1).sum::<u32>() > 1;
+            if !cased && n % stride != 0 {
+                continue;
+            }
+            for w in [c.to_string(), format!("a{c}"), format!("{c}Z")] {
+                let mk = |ic: bool| {
+                    let mut p = Pat::new(Kind::Token, Lit::Str(w.clone()));
+                    p.icase = ic;
+                    Spec::new(true, vec![p])
+                };
+                if cased || w.chars().count() == 1 {
+                    push_pair(&mut specs, mk(false), mk(true));
+                }
+            }
         }
     }
     // ignore(case) on REGEX and SKIP patterns is the regex crate's (?i): classes whose ranges span
